@@ -291,7 +291,7 @@ def ic (j : Json) : Except String Json := do
   let infs ← getList getNat (← fld j "infs")
   let recs ← getList getNat (← fld j "recs")
   let row0 ← getList (fun x => x.getInt?) (← fld j "row0")
-  let st ← getList getStr (← fld j "status")
+  let st ← (match fldOpt j "status" with | none => pure none | some x => (getList getStr x).map some)
   pure (Json.mkObj [("ok", Json.bool true), ("holds", Json.bool (initialOK N infs recs row0 st sir))])
 end DrvPred
 
